@@ -126,3 +126,18 @@ package benchmath
 //@   loop 1:
 //@     invariant 2 <= n <= 51 && medianCacheOK(addr(medianCache))
 //@     decreases 51 - n
+
+// ---------------------------------------------------------------------------
+// Samples (C13): the values of a sample are kept in ascending order.
+
+//@ pure func ascending(x []float64) bool = forall a int, b int :: 0 <= a <= b < len(x) && !isNaN(x[a]) ==> x[a] <= x[b]
+
+//@ func NewSample(values []float64, t *Thresholds) (s *Sample)
+//@   props C13
+//@   modifies values
+//@   ensures s != nil && fresh(s) && s.Values === values && s.Thresholds == t && len(s.Warnings) == 0 && ascending(s.Values)
+
+//@ func (s *Sample) sample() (r stats.Sample)
+//@   props C13
+//@   requires s != nil
+//@   ensures r.Xs === s.Values && r.Sorted && r.Weights == nil
